@@ -199,6 +199,11 @@ def setup_par(case, mode):
         install_h5(M, PAR)
     patch(PAR, 'multiprocessing', mpmodel.multiprocessing)
     patch(PAR, 'print', lambda *a, **k: None)
+    if case.get('small_blocks'):
+        # the 1000000-element copy blocks of the join, at small scale
+        from harness.common import generalise_literal
+        generalise_literal(PAR, '_transpose_sparse_matrix_on_disk_v2',
+                           1000000, [1000000, 1, 2])
 
 
 def classify_par(f, case):
@@ -530,8 +535,12 @@ HARNESSES = [
             cases=[{'shape': [2, 2]}, {'shape': [3, 2], 'data': True},
                    {'shape': [4, 1], 'data': False, 'max_proc': 4},
                    {'shape': [30, 2], 'data': True, 'max_proc': 4,
-                    'pattern': 'banded'}],
+                    'pattern': 'banded'},
+                   {'shape': [2, 2], 'data': True, 'max_proc': 2, 'K': 0,
+                    'small_blocks': True}],
             thorough_cases=[{'shape': [2, 2], 'K': 2}, {'shape': [3, 2]},
+                            {'shape': [3, 2], 'data': True, 'max_proc': 2,
+                             'K': 0, 'small_blocks': True},
                             {'shape': [2, 3]},
                             {'shape': [4, 1], 'max_proc': 4},
                             {'shape': [3, 3], 'data': True},
